@@ -24,7 +24,8 @@ type G struct {
 	nextV int
 	Keys  []string
 	Bkts  []string
-	Unit  int // typical record size (segment sizes are multiples of it)
+	Unit  int  // typical record size (segment sizes are multiples of it)
+	Long  bool // some values are 1-2.6 KB long (records far longer than any header or checksum block)
 }
 
 // Val returns a fresh unique value tag (so each read is attributable to one write).
@@ -117,6 +118,9 @@ func (g *G) kvWrite(p KVParams) prog.Op {
 		v = v + "|x"
 	}
 	op := prog.Op{K: "put", B: b, Key: k, Val: v}
+	if g.Long && r.Bool(0.3) {
+		op.Big = r.Range(1025, 2600)
+	}
 	if p.TTL {
 		op.TTL = TTLs[r.Intn(len(TTLs))]
 	}
@@ -210,11 +214,24 @@ func KV(r *core.Rng, p KVParams) *prog.Program {
 	if p.ManyKeys > 0 && r.Bool(p.ManyKeys) {
 		// enough keys in one bucket to split B+ tree leaves and inner nodes
 		// (order 8), inserted in random order
-		n := r.Range(9, 40)
+		n, pool := r.Range(9, 40), 60
+		huge := r.Bool(0.25)
+		if huge {
+			// three levels: more than 36 distinct keys in ONE bucket (inner nodes split too)
+			n, pool = r.Range(45, 120), 150
+			if pg.Cfg.IdxMode == 2 {
+				n = r.Range(45, 64) // sparse mode opens files for every lookup
+			}
+			p.Buckets = 1
+		}
 		g.Keys = subset(r, KVKeys, 1, 4)
 		for i := 0; i < n; i++ {
-			g.Keys = append(g.Keys, fmt.Sprintf("k%02d", r.Intn(60)))
+			g.Keys = append(g.Keys, fmt.Sprintf("k%02d", r.Intn(pool)))
 		}
+	}
+	if r.Bool(0.08) {
+		g.Long = true
+		pg.Cfg.SegSize = []int64{4096, 8192}[r.Intn(2)]
 	}
 	nb := p.Buckets
 	if nb <= 0 {
